@@ -54,6 +54,7 @@ type transUnit struct {
 	Vars  []string // package-level variables with initialisers to translate (in order, before Funcs that use them)
 	// interfaces and types of other packages (only for units that use them)
 	TypeParams  string               // binders added to every definition, e.g. "{M S : Type} [MapI M] [StoreI S]"
+	JoinIfs     bool                 // an `if` without jumps whose branches contain fallible steps is joined through Res instead of duplicating the continuation
 	TypeArgs    string               // named arguments for calls of the auxiliary loop functions, e.g. "(M := M) (S := S)" (a loop that does not mention the type variables could not infer them)
 	StructArgs  string               // arguments of the unit's structures, e.g. "M S"
 	Ifaces      map[string]ifaceSpec // "mapping.IndexMapping" -> class
@@ -66,9 +67,10 @@ type transUnit struct {
 // an interface of another package: a type variable with a class of method signatures (DDS/Model/GoIface.lean);
 // Mutating lists the methods that change their receiver (the translated call returns the new receiver first)
 type ifaceSpec struct {
-	TyVar    string
-	Class    string
-	Mutating map[string]bool
+	TyVar     string
+	Class     string
+	Mutating  map[string]bool
+	MutParams map[string][]int // method -> indexes of the (non-receiver) parameters it writes through
 }
 
 type externFn struct {
@@ -121,15 +123,27 @@ var transUnits = []transUnit{
 }
 
 var sketchUnit = transUnit{Dir: "ddsketch", File: "CodeSketch", NS: "DDS.Gen.Sketch", Mode: "f64",
-	TypeParams: "{M S : Type} [MapI M] [StoreI S] [Inhabited M] [Inhabited S]", StructArgs: "M S", TypeArgs: "(M := M) (S := S)",
-	Imports: []string{"DDS.Model.GoIface", "DDS.Generated.CodeStat"},
+	TypeParams: "{M S : Type} [MapI M] [StoreI S] [Inhabited M] [Inhabited S]", StructArgs: "M S", TypeArgs: "(M := M) (S := S)", JoinIfs: true,
+	Imports: []string{"DDS.Model.GoIface", "DDS.Generated.CodeStat", "DDS.Generated.CodeEncoding"},
 	Ifaces: map[string]ifaceSpec{
-		"mapping.IndexMapping": {TyVar: "M", Class: "MapI", Mutating: map[string]bool{}},
+		"mapping.IndexMapping": {TyVar: "M", Class: "MapI", Mutating: map[string]bool{}, MutParams: map[string][]int{"Encode": {0}}},
 		"store.Store": {TyVar: "S", Class: "StoreI", Mutating: map[string]bool{"Add": true, "AddWithCount": true, "Clear": true,
-			"MergeWith": true, "Reweight": true}},
+			"MergeWith": true, "Reweight": true, "Encode": true}, MutParams: map[string][]int{"Encode": {0}}},
 	},
-	ExternTypes: map[string]string{"stat.SummaryStatistics": "DDS.Gen.Stat.SummaryStatistics"},
+	ExternTypes: map[string]string{"stat.SummaryStatistics": "DDS.Gen.Stat.SummaryStatistics",
+		"encoding.Flag": "DDS.Gen.Encoding.Flag", "encoding.FlagType": "DDS.Gen.Encoding.FlagType"},
+	ExternVars: map[string]string{
+		"encoding.FlagZeroCountVarFloat": "DDS.Gen.Encoding.FlagZeroCountVarFloat",
+		"encoding.FlagTypePositiveStore": "DDS.Gen.Encoding.FlagTypePositiveStore",
+		"encoding.FlagTypeNegativeStore": "DDS.Gen.Encoding.FlagTypeNegativeStore",
+		"encoding.FlagCount":             "DDS.Gen.Encoding.FlagCount",
+		"encoding.FlagSum":               "DDS.Gen.Encoding.FlagSum",
+		"encoding.FlagMin":               "DDS.Gen.Encoding.FlagMin",
+		"encoding.FlagMax":               "DDS.Gen.Encoding.FlagMax"},
 	ExternFuncs: map[string]externFn{
+		"encoding.EncodeFlag":       {Lean: "DDS.Gen.Encoding.EncodeFlag", MutParams: []int{0}},
+		"encoding.EncodeVarfloat64": {Lean: "DDS.Gen.Encoding.EncodeVarfloat64", Res: true, MutParams: []int{0}},
+		"encoding.EncodeFloat64LE":  {Lean: "DDS.Gen.Encoding.EncodeFloat64LE", Res: true, MutParams: []int{0}},
 		"stat.NewSummaryStatistics":          {Lean: "DDS.Gen.Stat.NewSummaryStatistics"},
 		"stat.SummaryStatistics.Count":       {Lean: "DDS.Gen.Stat.SummaryStatistics.Count"},
 		"stat.SummaryStatistics.Sum":         {Lean: "DDS.Gen.Stat.SummaryStatistics.Sum"},
@@ -158,6 +172,7 @@ var sketchUnit = transUnit{Dir: "ddsketch", File: "CodeSketch", NS: "DDS.Gen.Ske
 		"DDSketchWithExactSummaryStatistics.MergeWith", "DDSketchWithExactSummaryStatistics.Copy",
 		"DDSketchWithExactSummaryStatistics.Reweight",
 		"DDSketch.GetValuesAtQuantiles", "DDSketchWithExactSummaryStatistics.GetValuesAtQuantiles",
+		"DDSketch.Encode", "DDSketchWithExactSummaryStatistics.Encode",
 	}}
 
 var datasetUnit = transUnit{Dir: "dataset", File: "CodeDataset", NS: "DDS.Gen.Dataset", Mode: "f64",
@@ -1347,6 +1362,10 @@ func (t *tr) registerExterns() {
 						fi.mutSet[sig.Recv()] = true
 						fi.mutated = []int{0}
 					}
+					for _, i := range is.MutParams[fo.Name()] {
+						fi.mutSet[sig.Params().At(i)] = true
+						fi.mutated = append(fi.mutated, i+1)
+					}
 					t.byObj[obj] = fi
 				} else if ef, ok := t.unit.ExternFuncs[key+"."+fo.Name()]; ok {
 					fi := &funcInfo{key: key + "." + fo.Name(), lean: ef.Lean, sig: sig, recv: sig.Recv(),
@@ -1745,6 +1764,27 @@ func (t *tr) copyStmt(x *ast.CallExpr, c *ectx, hs *[]hoist, sc *sctx, k string)
 	return t.wrapHoists(*hs, t.assignTo(dst, v, c, sc, k), sc)
 }
 
+// does the node call a translated or extern function that returns Res?
+func (t *tr) callsFallible(n ast.Node) bool {
+	found := false
+	ast.Inspect(n, func(m ast.Node) bool {
+		if e, ok := m.(*ast.CallExpr); ok {
+			var obj types.Object
+			switch f := e.Fun.(type) {
+			case *ast.Ident:
+				obj = t.info.Uses[f]
+			case *ast.SelectorExpr:
+				obj = t.info.Uses[f.Sel]
+			}
+			if fi := t.byObj[obj]; fi != nil && fi.res {
+				found = true
+			}
+		}
+		return !found
+	})
+	return found
+}
+
 func hasJump(n ast.Node) bool {
 	found := false
 	ast.Inspect(n, func(m ast.Node) bool {
@@ -2110,6 +2150,29 @@ func (t *tr) stmt(s ast.Stmt, sc *sctx, kf func() string) string {
 			th := t.stmts(x.Body.List, pure, tu)
 			el := t.stmts(elseList, pure, tu)
 			return t.wrapHoists(*hs, "let "+tu+" := if "+cond+" then\n"+th+"\nelse\n"+el+"\n"+kf(), sc)
+		}
+		if t.unit.JoinIfs && sc.monad != "pure" && !hasJump(x.Body) && (x.Else == nil || !hasJump(x.Else)) && t.callsFallible(x) {
+			// join form through Res: Res.bind (if c then … .ok vs else … .ok vs) (fun vs => k)
+			nodes := []ast.Node{x.Body}
+			if x.Else != nil {
+				nodes = append(nodes, x.Else)
+			}
+			vs := t.assignedOuter(nodes, within(x))
+			if len(vs) > 0 {
+				var names []string
+				for _, v := range vs {
+					names = append(names, lname(v.Name()))
+				}
+				tu := tuple(names)
+				inner := &sctx{monad: "res"}
+				th := t.stmts(x.Body.List, inner, ".ok "+tu)
+				el := t.stmts(elseList, inner, ".ok "+tu)
+				comb := "Res.bind"
+				if sc.monad == "loop" {
+					comb = "Res.bindL"
+				}
+				return t.wrapHoists(*hs, comb+" (if "+cond+" then\n"+th+"\nelse\n"+el+") (fun "+tu+" =>\n"+kf()+")", sc)
+			}
 		}
 		k := kf()
 		th := t.stmts(x.Body.List, sc, k)
